@@ -643,6 +643,10 @@ pub trait Fm: tf::Format + Sized + 'static {
         Self::from_valid(data)
     }
     fn io_write<A: At>(_t: &mut Tendril<Self, A>, _data: &[u8], _flag: bool) {}
+    /// comparisons with / views as str, where the format has them
+    fn str_views<A: At>(_t: &Tendril<Self, A>, _model: &[u8]) -> Result<(), String> {
+        Ok(())
+    }
     fn read_from<A: At>(_t: &mut Tendril<Self, A>, _data: &[u8], _mode: u8) -> Result<(), String> {
         Ok(())
     }
@@ -799,6 +803,24 @@ fn str_chunks(s: &str, n: usize) -> Vec<&str> {
 
 impl Fm for tf::UTF8 {
     const K: Fmt = Fmt::Utf8;
+    fn str_views<A: At>(t: &Tendril<Self, A>, model: &[u8]) -> Result<(), String> {
+        let s = std::str::from_utf8(model).map_err(|_| "HARNESS BUG: model is not UTF-8".to_string())?;
+        if !(*t == *s) {
+            return Err(format!("PartialEq<str>: tendril != {s:?}, which is its model"));
+        }
+        let other = format!("{s}x");
+        if *t == *other.as_str() {
+            return Err(format!("PartialEq<str>: tendril == {other:?}, its model is {s:?}"));
+        }
+        if t.to_string() != s {
+            return Err(format!("Display writes {:?}, the model is {s:?}", t.to_string()));
+        }
+        let r: &str = t.as_ref();
+        if r != s {
+            return Err(format!("AsRef<str> gives {r:?}, the model is {s:?}"));
+        }
+        Ok(())
+    }
     fn from_valid<A: At>(b: &[u8]) -> Tendril<Self, A> {
         let s = std::str::from_utf8(b).expect("harness: valid utf8");
         match b.len() % 3 {
@@ -893,6 +915,17 @@ impl Fm for tf::UTF8 {
 
 impl Fm for tf::ASCII {
     const K: Fmt = Fmt::Ascii;
+    fn str_views<A: At>(t: &Tendril<Self, A>, model: &[u8]) -> Result<(), String> {
+        let s = std::str::from_utf8(model).map_err(|_| "HARNESS BUG: non-ASCII model".to_string())?;
+        if !(*t == *s) {
+            return Err(format!("PartialEq<str>: tendril != {s:?}, which is its model"));
+        }
+        let other = format!("{s}x");
+        if *t == *other.as_str() {
+            return Err(format!("PartialEq<str>: tendril == {other:?}, its model is {s:?}"));
+        }
+        Ok(())
+    }
     fn from_valid<A: At>(b: &[u8]) -> Tendril<Self, A> {
         Tendril::try_from_byte_slice(b).expect("try_from_byte_slice rejected valid ASCII")
     }
@@ -1355,6 +1388,31 @@ impl<F: Fm, A: At> Real<F, A> {
                     }
                     if !validate(F::K, v) {
                         return Err(format!("HARNESS BUG: model of slot {i} invalid for {:?}: {}", F::K, show(v)));
+                    }
+                    // the views through the trait impls agree with the model, too
+                    if v.len() <= 4096 {
+                        F::str_views(t, v).map_err(|e| format!("slot {i}: {e}"))?;
+                        for j in (i + 1)..SLOTS {
+                            if let (Some(u), Some(w)) = (&self.slots[j], &m.slots[j]) {
+                                if w.len() > 4096 {
+                                    continue;
+                                }
+                                if (t == u) != (v == w) {
+                                    return Err(format!("slots {i} and {j}: == answers {}, the models are {}", t == u, if v == w { "equal" } else { "different" }));
+                                }
+                                if v == w {
+                                    use std::hash::{Hash, Hasher};
+                                    let h = |x: &Tendril<F, A>| {
+                                        let mut s = std::collections::hash_map::DefaultHasher::new();
+                                        x.hash(&mut s);
+                                        s.finish()
+                                    };
+                                    if h(t) != h(u) {
+                                        return Err(format!("slots {i} and {j} are equal but hash differently"));
+                                    }
+                                }
+                            }
+                        }
                     }
                 },
                 (a, b) => {
